@@ -356,7 +356,7 @@ impl Property for C15 {
     vec!["the documented schema rules are those listed in the property: id present and non-blank string, declared fields only, value types per field kind (strings / integers / numbers, scalar or array), nullability, nested values are objects or arrays of objects with declared keys and required non-nullable properties".into()]
   }
   fn plan(tier: Tier) -> Plan {
-    Plan { workers: 16, cases_per_worker: tier.pick(1500, 30000) }
+    Plan { workers: 16, cases_per_worker: tier.pick(1500, 90000) }
   }
   fn strategy(_tier: Tier) -> BoxedStrategy<Case> {
     let so = SchemaOpts { analyzers: false, ..SchemaOpts::default() };
